@@ -176,6 +176,46 @@ def check_run(ctx, case):
     return ("tol" if by_tol else "") + ("max" if by_max else ""), E > 1
 
 
+def check_refused(ctx, case):
+    """History: a run stopped by the point limit, then a request the driver REFUSES (invalid arguments, AssertionError), then the run is continued with a
+    larger limit.  The arrays returned by the continuation describe the whole run: one entry per evaluation, the entries of the first stop as their prefix
+    (missed seed C13_9: the refused request had already cleared the history arrays)."""
+    dc = _dc()
+    cfg = case["cfg"]
+    st = cfg["strategy"]
+    s, eo, f = dc.build(cfg, case["comps"], case["ref"])
+    lmin, lmax = lmins(cfg)
+    log = dc.instrument(s, f)
+    r1 = None
+    with ctx.guard("B.hist.lengths", S_LOOP, st + "-raises"):
+        r1 = dc.run_adaptive(s, eo, lmin, lmax, case["tol"], case["first"], 1)
+    if r1 is None:
+        return
+    refused = 0
+    d = len(cfg["a"])
+    for bad_args in (([1] * d, [2] * d), (None, 2), (1, None)):
+        try:
+            with quiet():
+                s.performSpatiallyAdaptiv(bad_args[0], bad_args[1], eo, case["tol"], max_evaluations=case["first"], print_output=False)
+        except AssertionError:
+            refused += 1
+        except Exception:  # noqa  (another kind of refusal of nonsense arguments: equally a refusal)
+            refused += 1
+        else:
+            return      # the request was accepted as a new run: nothing is promised about the old one
+    r2 = None
+    with ctx.guard("B.hist.lengths", S_LOOP, st + "-continue-after-refused-request-raises"):
+        r2 = dc.continue_adaptive(s, case["tol"], case["max"], 1)
+    if r2 is None:
+        return
+    E = log["seq"].count("E")
+    errs, npts, serrs = r2[5], r2[6], r2[7]
+    ctx.check("B.hist.lengths", len(errs) == len(npts) == len(serrs) == E and list(npts[:len(r1[6])]) == list(r1[6]) and list(errs[:len(r1[5])]) == list(r1[5]),
+              S_LOOP, st + "-continued-after-refused-request",
+              "after %d refused requests and a continuation: %d evaluations were made in this run, the arrays have %d / %d / %d entries; points at the first stop %s, now %s"
+              % (refused, E, len(errs), len(npts), len(serrs), list(r1[6]), list(npts)))
+
+
 # ---------------------------------------------------------------------------------------------------------
 # generation
 # ---------------------------------------------------------------------------------------------------------
@@ -269,6 +309,10 @@ def anchor_cases():
     for norm, comps, ref, tol, mx in ((2, [["corner", [1.0, 3.0]], ["gauss", [6.0, 9.0], [0.3, 0.6]]], [3.7, 0.02], 1e-2, 120), ("inf", [["osc", [2.0, 1.0], 0.2]], [0.004], 1e2, 150)):
         cfg = {"strategy": "dimwise", "a": [0.0, 0.0], "b": [1.0, 1.0], "norm": norm, "opts": {}, "grid": {"type": "GlobalTrapezoidal", "boundary": True}, "late_reference": True}
         out.append({"kind": "run", "cfg": cfg, "comps": comps, "ref": ref, "refkind": "offset", "tol": tol, "max": mx, "min": 30})
+    for st in ("dimwise", "extend"):
+        cfg = {"strategy": st, "a": [0.0, 0.0], "b": [1.0, 1.0], "norm": "inf", "opts": {} if st == "dimwise" else {"version": 0, "number_of_refinements_before_extend": 2},
+               "grid": {"type": "GlobalTrapezoidal" if st == "dimwise" else "Trapezoidal", "boundary": True}}
+        out.append({"kind": "refused", "cfg": cfg, "comps": [["corner", [1.0, 3.0]]], "ref": [0.1], "refkind": "offset", "tol": -1.0, "first": 40, "max": 90, "min": 1})
     return out
 
 
@@ -276,7 +320,7 @@ def run(ctx):
     ctx.exhaustive = False
     for case in anchor_cases():
         ctx.case(case, nontrivial=True)
-        check_run(ctx, case)
+        (check_refused if case["kind"] == "refused" else check_run)(ctx, case)
     quick = ctx.quick()
     per_cfg = 8 if quick else 12
     stats = {}
@@ -317,5 +361,7 @@ def replay(ctx, case):
     if case.get("kind") == "scout":
         with ctx.guard("B.stop.first", S_LOOP, case["cfg"]["strategy"] + "-raises"):
             scout(case, max_ref(case))
+    elif case.get("kind") == "refused":
+        check_refused(ctx, case)
     else:
         check_run(ctx, case)
